@@ -96,7 +96,7 @@ func (c cacheCase) Sx() sx.V {
 		case "restart":
 			ops = append(ops, sx.L(sx.S("restart")))
 		case "par":
-			ops = append(ops, sx.L(sx.S("par"), sx.I(int64(op.N))))
+			ops = append(ops, sx.L(sx.S("par"), sx.I(int64(op.N)), sx.I(op.Dt)))
 		case "script":
 			ops = append(ops, sx.L(sx.S("script"), scriptSx(op.Script)))
 			for _, hs := range op.Script {
@@ -147,7 +147,7 @@ func cacheCaseFromSx(v sx.V) CacheCase {
 		case "restart":
 			c.Ops = append(c.Ops, Op{Kind: "restart"})
 		case "par":
-			c.Ops = append(c.Ops, Op{Kind: "par", N: int(o.N(1).Int())})
+			c.Ops = append(c.Ops, Op{Kind: "par", N: int(o.N(1).Int()), Dt: o.N(2).Int()})
 		case "script":
 			c.Ops = append(c.Ops, Op{Kind: "script", Script: scriptFromSx(o.N(1))})
 		}
@@ -319,6 +319,10 @@ func (c cacheCase) Run() (sx.V, error) {
 					perf.sent[kv.V] = true
 				}
 			}
+			if op.Dt == 1 {
+				// destinations answer before they read the request bodies; the bodies are read once all clients are done
+				perf.late = make(chan struct{})
+			}
 			perf.mu.Unlock()
 			obs := make([]ClientObs, len(group))
 			errs := make([]error, len(group))
@@ -342,6 +346,13 @@ func (c cacheCase) Run() (sx.V, error) {
 			if !caching.VerifWaitIdle(cache, 5*time.Second) {
 				return sx.L(), fmt.Errorf("cache keys still locked 5 s after the requests completed")
 			}
+			perf.mu.Lock()
+			if perf.late != nil {
+				close(perf.late)
+				perf.late = nil
+			}
+			perf.mu.Unlock()
+			perf.lateWG.Wait()
 			perf.mu.Lock()
 			log := append([]Delivery{}, perf.log...)
 			perf.mu.Unlock()
